@@ -35,10 +35,34 @@ theorem listedAt_of_mem_getTimeoutList {l : Led} {d : Nat} {t : TxId} (h : TId.s
       rw [← e]; exact ha
   · cases h
 
+/-- how often the one-to-one transaction `t` occurs on the list stored under `timeout-<d>` -/
+def listCount (l : Led) (d : Nat) (t : TxId) : Nat :=
+  match l.getS (.timeout d) with
+  | some (.tlist lst) => lst.count (some (TId.single t))
+  | _ => 0
+
+theorem listCount_congr {l l' : Led} {d : Nat} {t : TxId} (h : l'.getS (.timeout d) = l.getS (.timeout d)) :
+    listCount l' d t = listCount l d t := by
+  unfold listCount; rw [h]
+
+theorem listCount_of {l : Led} {d : Nat} {lst : List (Option TId)} (h : l.getS (.timeout d) = some (.tlist lst)) (t : TxId) :
+    listCount l d t = lst.count (some (TId.single t)) := by
+  unfold listCount; rw [h]
+
+theorem listedAt_iff_count {l : Led} {d : Nat} {t : TxId} : listedAt l d t ↔ 0 < listCount l d t := by
+  unfold listedAt listCount
+  constructor
+  · rintro ⟨lst, e, hm⟩
+    rw [e]; exact List.count_pos_iff.mpr hm
+  · intro h
+    split at h
+    · rename_i lst e; exact ⟨lst, e, List.count_pos_iff.mp h⟩
+    · omega
+
 inductive StepsT : Led → Led → Prop
   | refl (l : Led) : StepsT l l
   | setO {l l' : Led} (k : Key) (v : Option Val) (hk : ∀ d, k ≠ .timeout d) : StepsT l l' → StepsT l (l'.setS k v)
-  | setT {l l' : Led} (d : Nat) (lst : List (Option TId)) (hsub : ∀ t, some (TId.single t) ∈ lst → listedAt l' d t) :
+  | setT {l l' : Led} (d : Nat) (lst : List (Option TId)) (hcnt : ∀ t, lst.count (some (TId.single t)) ≤ listCount l' d t) :
       StepsT l l' → StepsT l (l'.setS (.timeout d) (some (.tlist lst)))
   | post {l l' : Led} (e : Ev) : StepsT l l' → StepsT l (l'.post e)
 
@@ -46,7 +70,7 @@ theorem StepsT.trans {a b c : Led} (h1 : StepsT a b) (h2 : StepsT b c) : StepsT 
   induction h2 with
   | refl => exact h1
   | setO k v hk _ ih => exact StepsT.setO k v hk ih
-  | setT d lst hsub _ ih => exact StepsT.setT d lst hsub ih
+  | setT d lst hcnt _ ih => exact StepsT.setT d lst hcnt ih
   | post e _ ih => exact StepsT.post e ih
 
 theorem StepsT.addO {l l' : Led} (k : Key) (v : Val) (hk : ∀ d, k ≠ .timeout d) (h : StepsT l l') : StepsT l (l'.addS k v) :=
@@ -54,27 +78,27 @@ theorem StepsT.addO {l l' : Led} (k : Key) (v : Val) (hk : ∀ d, k ≠ .timeout
 theorem StepsT.setIC {l l' : Led} (s : SvcId) (i : IC) (h : StepsT l l') : StepsT l (setIC l' s i) :=
   StepsT.setO _ _ (by intro d e; cases e) h
 
-/-- **an id listed after such steps was listed before** -/
-theorem StepsT.listed {l l' : Led} (h : StepsT l l') (d : Nat) (t : TxId) (hl : listedAt l' d t) : listedAt l d t := by
+/-- **no one-to-one id occurs more often on a list after such steps than before** -/
+theorem StepsT.count {l l' : Led} (h : StepsT l l') (d : Nat) (t : TxId) : listCount l' d t ≤ listCount l d t := by
   induction h with
-  | refl => exact hl
+  | refl => exact Nat.le_refl _
   | setO k v hk _ ih =>
-    apply ih
-    rw [← listedAt_congr (l' := Led.setS _ k v)]
-    · exact hl
-    · simp only [Led.getS_setS]; rw [if_neg (hk d)]
-  | @setT l1 d' lst hsub _ ih =>
-    apply ih
+    refine Nat.le_trans (Nat.le_of_eq (listCount_congr ?_)) ih
+    simp only [Led.getS_setS]; rw [if_neg (hk d)]
+  | @setT l1 d' lst hcnt _ ih =>
     by_cases hd : d' = d
     · subst hd
-      obtain ⟨lst', e, hm⟩ := hl
-      simp only [Led.getS_setS, if_true] at e
-      cases e
-      exact hsub t hm
-    · rw [← listedAt_congr (l' := Led.setS l1 (.timeout d') (some (.tlist lst)))]
-      · exact hl
-      · simp only [Led.getS_setS]; rw [if_neg (fun e => hd (by cases e; rfl))]
-  | post e _ ih => exact ih hl
+      refine Nat.le_trans ?_ ih
+      rw [listCount_of (l := Led.setS l1 (.timeout d') (some (.tlist lst))) (lst := lst) (by simp)]
+      exact hcnt t
+    · refine Nat.le_trans (Nat.le_of_eq (listCount_congr ?_)) ih
+      simp only [Led.getS_setS]; rw [if_neg (fun e => hd (by cases e; rfl))]
+  | post e _ ih => exact ih
+
+/-- an id listed after such steps was listed before -/
+theorem StepsT.listed {l l' : Led} (h : StepsT l l') (d : Nat) (t : TxId) (hl : listedAt l' d t) : listedAt l d t := by
+  rw [listedAt_iff_count] at *
+  exact Nat.lt_of_lt_of_le hl (h.count d t)
 
 syntax "stepsT_tac" : tactic
 macro_rules
@@ -126,19 +150,34 @@ theorem normList_mem_single (r : List (Option TId)) (t : TxId) (h : some (TId.si
 
 -- ------------------------------------------------------------------ the transaction manager's list writers (groups only)
 
+theorem count_single_global (lst : List (Option TId)) (g : GId) (t : TxId) :
+    (lst ++ [some (TId.global g)]).count (some (TId.single t)) = lst.count (some (TId.single t)) := by
+  rw [List.count_append]
+  have : [some (TId.global g)].count (some (TId.single t)) = 0 := by
+    rw [List.count_eq_zero]; intro hm; simp at hm
+  omega
+
+theorem count_normList_le (r : List (Option TId)) (t : TxId) :
+    (normList r).count (some (TId.single t)) ≤ r.count (some (TId.single t)) := by
+  unfold normList
+  split
+  · have : [(none : Option TId)].count (some (TId.single t)) = 0 := by rw [List.count_eq_zero]; intro hm; simp at hm
+    omega
+  · exact Nat.le_refl _
+
 theorem tmAddTimeout_stepsT (l : Led) (h : Nat) (g : GId) : StepsT l (tmAddTimeout l h (.global g)) := by
+  have one : ∀ t : TxId, [some (TId.global g)].count (some (TId.single t)) = 0 := by
+    intro t; rw [List.count_eq_zero]; intro hm; simp at hm
   unfold tmAddTimeout
   split
   · rename_i lst hl
     split
-    · exact StepsT.setT _ _ (by intro t ht; simp at ht) (StepsT.refl _)
+    · exact StepsT.setT _ _ (by intro t; rw [one]; exact Nat.zero_le _) (StepsT.refl _)
     · refine StepsT.setT _ _ ?_ (StepsT.refl _)
-      intro t ht
-      simp only [List.mem_append, List.mem_singleton] at ht
-      rcases ht with ht | ht
-      · exact ⟨lst, hl, ht⟩
-      · cases ht
-  · exact StepsT.setT _ _ (by intro t ht; simp at ht) (StepsT.refl _)
+      intro t
+      rw [count_single_global, listCount_of hl]
+      exact Nat.le_refl _
+  · exact StepsT.setT _ _ (by intro t; rw [one]; exact Nat.zero_le _) (StepsT.refl _)
 
 theorem tmRemoveTimeout_stepsT {l l' : Led} {h : Nat} {id : TId} (e : tmRemoveTimeout l h id = .ok l') : StepsT l l' := by
   unfold tmRemoveTimeout at e
@@ -150,8 +189,9 @@ theorem tmRemoveTimeout_stepsT {l l' : Led} {h : Nat} {id : TId} (e : tmRemoveTi
       · rename_i r hr
         cases e
         refine StepsT.setT _ _ ?_ (StepsT.refl _)
-        intro t ht
-        exact ⟨lst, hl, goRemove_mem lst r id hr _ (normList_mem_single r t ht)⟩
+        intro t
+        rw [listCount_of hl]
+        exact Nat.le_trans (count_normList_le r t) ((goRemove_sublist lst r id hr).count_le _)
       · cases e
   · cases e; exact StepsT.refl _
 
